@@ -213,6 +213,15 @@ impl Sub for SmallDic {
     }
     fn strategy(&self, _tier: Tier) -> BoxedStrategy<TrainSpec> {
         train_spec(10, true)
+            .prop_map(|mut spec| {
+                // in two thirds of the cases with a user lexicon: a user row with explicit parameters whose merged weight
+                // tends to be the largest of the model (the two files must still be scaled alike)
+                if spec.max_iter % 3 != 0 {
+                    spec.add_weight_raising_user_row(true);
+                }
+                spec
+            })
+            .boxed()
     }
     fn rule(&self) -> String {
         "TrainSpec with K = 1-10 BIGRAM templates (so the dual connector's <8, 8 and >8 cases occur), trained, then matrix.def and bigram.left/right/cost emitted and compiled into three dictionaries (matrix, raw, dual) with the emitted lexicon; \
